@@ -415,6 +415,10 @@ func (w *World) execTxn(c *column.Collection, spec *TxnSpec, oracle bool, observ
 				if record {
 					o.Err = err.Error()
 				}
+				if o.Swallow {
+					err = nil // the body ignores the failure and carries on; the transaction ends in an error anyway
+					continue
+				}
 				return err
 			}
 			if observe != nil {
